@@ -8,19 +8,23 @@
   (`slots_agree`).  A substring test (`contains`) lets a body field's NAME hijack a slot
   ("keywords" ⊇ "key", "values" ⊇ "value", "createdAtX" ⊇ "createdAt"); a whole-tag equality
   (`eq`) misses a reserved name that carries options ("key,omitempty").
-  The value half (typed conversions proto ↔ Go, server-side precedence of typed values over the
-  bytes body) is exercised by the correspondence run through the real SDK and the in-process
-  server; it is tested, not proved.
-  Model: Hv/Misc/SdkTags.lean.
+  The VALUE half is the second part of this file: the conversion table Go kind ↔ proto field ↔
+  server content type (Hv/Misc/SdkValues.lean) and `convert_roundtrip` — every well-typed value of
+  every supported kind comes back unchanged through the value slot and through a map-body field, on
+  the stated exact domain — with closed witnesses for what does NOT come back on the real SDK
+  (sub-second part of a time value, a struct value, a nil container in a body field, empty-but-
+  non-nil containers and -0 under omitempty).  The container codecs (gob/msgpack) are parameters.
+  Models: Hv/Misc/SdkTags.lean, Hv/Misc/SdkValues.lean.
 -/
 import Hv.Misc.SdkTags
+import Hv.Misc.SdkValuesLemmas
 import Hv.Basic.Verdict
 
 namespace Hv.C22
 open Hv.SdkTags
 
-/-- The full-strength (tag) statement: for EVERY tag string the three classifiers agree. -/
-def Holds (cfg : Cfg) : Prop := ∀ t : Tag, Agree cfg t
+/-- The full-strength TAG statement: for EVERY tag string the three classifiers agree. -/
+def TagHolds (cfg : Cfg) : Prop := ∀ t : Tag, Agree cfg t
 
 /-! ### all predicates compare the head ⇒ agreement on every tag -/
 
@@ -148,7 +152,7 @@ theorem not_allHeadEq_slot (ps : Preds) (h : ps.allHeadEq = false) : ∃ s, ps.g
     · exact ⟨.value, hb⟩
   · exact ⟨.key, ha⟩
 
-theorem not_holds_of_not_allHeadEq (cfg : Cfg) (h : cfg.allHeadEq = false) : ¬ Holds cfg := by
+theorem not_holds_of_not_allHeadEq (cfg : Cfg) (h : cfg.allHeadEq = false) : ¬ TagHolds cfg := by
   intro hh
   simp only [Cfg.allHeadEq, Bool.and_eq_false_iff] at h
   rcases h with h | h
@@ -170,7 +174,7 @@ theorem not_holds_of_not_allHeadEq (cfg : Cfg) (h : cfg.allHeadEq = false) : ¬ 
       simp at this
 
 /-- All three classify every tag string identically iff every predicate compares the tag head. -/
-theorem slots_agree (cfg : Cfg) : Holds cfg ↔ cfg.allHeadEq = true := by
+theorem slots_agree (cfg : Cfg) : TagHolds cfg ↔ cfg.allHeadEq = true := by
   constructor
   · intro h
     cases hc : cfg.allHeadEq with
@@ -262,6 +266,359 @@ theorem agree_plain_partial (t : Tag) (hpl : Plain t) : Agree legacy t := by
       intro s'; cases s' <;> simp [fires, legacy, Preds.get, holdsPred, hno]
     exact ⟨by rw [enc_none legacy t fe, hs]; rfl, by rw [dec_none legacy t fd, hs]; rfl⟩
 
+/-! ## value conversions -/
+
+namespace Values
+open Hv.SdkValues
+
+/-- the codec that returns containers exactly: the SDK's own part of the round trip -/
+def idLib : Lib := ⟨fun _ c => c⟩
+theorem idLib_lawful : idLib.Lawful := fun _ _ _ => rfl
+
+/-- The full-strength VALUE statement: every well-typed value of every supported kind (arrays and
+    non-UTF-8 strings are refused with an explicit error and are not part of the claim), with or
+    without `omitempty`, comes back equal — as THE value and as a map-body field. -/
+def Holds (cfg : SdkValues.Cfg) : Prop :=
+  ∀ (k : Kind) (om : Bool) (v : Val), WellTyped k v → k ≠ .array → (∀ s, v ≠ .str false s) →
+    (∀ s n, v = .time s n → inRange (true, 64) s) →
+    valueRT cfg idLib k om v = .ok v ∧ bodyRT cfg k om v = .ok v ∧
+    (∀ v1, WellTyped k v1 → valueUpdRT cfg idLib k om v1 v = valueRT cfg idLib k om v)   -- an overwrite reads back the LAST value
+
+/-- values for which the code as it is round-trips exactly through the value slot -/
+def ExactValue (cfg : SdkValues.Cfg) (lib : Lib) (k : Kind) (om : Bool) : Val → Prop
+  | .str valid _ => valid = true
+  | .bool _ => True
+  | .num _ => True
+  | .flt b => om = true → cfg.emptyNegZero = true → b ≠ signBit k
+  | .bytes b => om = true → cfg.emptyLenZero = true → b ≠ some []
+  | .cont c => (om = true → cfg.emptyLenZero = true → k ≠ .ptr → c ≠ some []) ∧
+               ((k = .ptr ∧ c = none) ∨ lib.norm k c = c)      -- the codec returns this container exactly
+  | .time s n => isEmpty cfg k (.time s n) = true ∨ (inRange (true, 64) s ∧ (cfg.timeAsUnixSeconds = true → n = 0))
+  | .stru x => k = .struct ∧ (cfg.structValueEncoded = true ∨ x = 0)
+
+/-- …and through a map-body field -/
+def ExactBody (cfg : SdkValues.Cfg) (k : Kind) (om : Bool) : Val → Prop
+  | .flt b => om = true → cfg.emptyNegZero = true → b ≠ signBit k
+  | .bytes b => (om = true → cfg.emptyLenZero = true → b ≠ some []) ∧ (b = none → om = true ∨ cfg.bodySkipsNil = true)
+  | .cont c => (om = true → cfg.emptyLenZero = true → k ≠ .ptr → c ≠ some []) ∧ (c = none → om = true ∨ cfg.bodySkipsNil = true)
+  | _ => True
+
+theorem kind_in_intKinds (k : Kind) (t : IntTy) (h : kindInt k = some t) : k ∈ intKinds := by
+  cases k <;> simp [kindInt] at h <;> simp [intKinds]
+
+theorem intOK_of_table (cfg : SdkValues.Cfg) (ht : tableOK cfg = true) (k : Kind) (t : IntTy) (h : kindInt k = some t) :
+    intOK cfg k t = true := by
+  simp only [tableOK, Bool.and_eq_true, List.all_eq_true] at ht
+  have := ht.1.1.1.1.1.1.1.1.1 k (kind_in_intKinds k t h)
+  simpa [intKindOK, h] using this
+
+/-- `om ∧ empty` sends nothing and the field keeps its zero value — which IS the value on the exact domain -/
+theorem empty_is_zero (cfg : SdkValues.Cfg) (k : Kind) (v : Val) (hw : WellTyped k v)
+    (he : isEmpty cfg k v = true)
+    (hf : ∀ b, v = .flt b → cfg.emptyNegZero = true → b ≠ signBit k)
+    (hb : ∀ b, v = .bytes b → cfg.emptyLenZero = true → b ≠ some [])
+    (hc : ∀ c, v = .cont c → cfg.emptyLenZero = true → k ≠ .ptr → c ≠ some [])
+    (hs : ∀ valid s, v = .str valid s → valid = true) : zero k = v := by
+  cases v with
+  | str valid s =>
+    have := hs valid s rfl
+    simp only [WellTyped] at hw; subst hw; subst this
+    simp only [isEmpty, List.isEmpty_iff] at he; subst he; rfl
+  | bool b => simp [isEmpty] at he
+  | num n =>
+    obtain ⟨t, ht, _⟩ := hw
+    simp only [isEmpty, beq_iff_eq] at he; subst he
+    cases k <;> simp [kindInt] at ht <;> rfl
+  | flt b =>
+    simp only [isEmpty, Bool.or_eq_true, Bool.and_eq_true, beq_iff_eq] at he
+    rcases he with he | ⟨hz, he⟩
+    · subst he; rcases hw with ⟨rfl, _⟩ | ⟨rfl, _⟩ <;> rfl
+    · exact absurd he (hf b rfl hz)
+  | bytes b =>
+    simp only [WellTyped] at hw; subst hw
+    simp only [isEmpty, Bool.or_eq_true, Bool.and_eq_true, beq_iff_eq, Option.isNone_iff_eq_none] at he
+    rcases he with he | ⟨hz, he⟩
+    · subst he; rfl
+    · exact absurd he (hb b rfl hz)
+  | cont c =>
+    simp only [isEmpty] at he
+    by_cases hp : k = .ptr
+    · subst hp; simp only [beq_self_eq_true, if_true, Option.isNone_iff_eq_none] at he; subst he; rfl
+    · have hp' : (k == Kind.ptr) = false := by simpa using hp
+      simp only [hp', Bool.false_eq_true, if_false, Bool.or_eq_true, Bool.and_eq_true, beq_iff_eq,
+        Option.isNone_iff_eq_none] at he
+      rcases he with he | ⟨hz, he⟩
+      · subst he
+        rcases hw with rfl | rfl | ⟨rfl, _⟩
+        · rfl
+        · rfl
+        · exact absurd rfl hp
+      · exact absurd he (hc c rfl hz hp)
+  | time s n =>
+    simp only [WellTyped] at hw
+    simp only [isEmpty, Bool.and_eq_true, beq_iff_eq] at he
+    obtain ⟨rfl, _⟩ := hw
+    obtain ⟨rfl, rfl⟩ := he
+    rfl
+  | stru x => simp [isEmpty] at he
+
+/-- a lawful codec returns every NON-EMPTY container exactly -/
+theorem lawful_nonempty_exact (lib : Lib) (hl : lib.Lawful) (k : Kind) (x : Nat) (xs : List Nat) :
+    lib.norm k (some (x :: xs)) = some (x :: xs) := hl k x xs
+
+/-- Round trip through the VALUE slot, per kind: whatever the tables are, as long as they connect
+    every kind to itself without a narrowing hop (`tableOK`), for every value of the exact domain. -/
+theorem convert_roundtrip (cfg : SdkValues.Cfg) (lib : Lib) (ht : tableOK cfg = true)
+    (k : Kind) (om : Bool) (v : Val) (hw : WellTyped k v) (hx : ExactValue cfg lib k om v) :
+    valueRT cfg lib k om v = .ok v := by
+  have htab := ht
+  simp only [tableOK, Bool.and_eq_true] at htab
+  obtain ⟨⟨⟨⟨⟨⟨⟨⟨⟨_, hTime⟩, hStr⟩, hBool⟩, hF32⟩, hF64⟩, hBytes⟩, hSlice⟩, hMap⟩, hPtr⟩ := htab
+  unfold valueRT
+  have hka : (k == Kind.array) = false := by
+    cases v <;> simp only [WellTyped, ExactValue] at hw hx
+    · subst hw; rfl
+    · subst hw; rfl
+    · obtain ⟨t, h, _⟩ := hw; cases k <;> simp [kindInt] at h <;> rfl
+    · rcases hw with ⟨rfl, _⟩ | ⟨rfl, _⟩ <;> rfl
+    · subst hw; rfl
+    · rcases hw with rfl | rfl | ⟨rfl, _⟩ <;> rfl
+    · obtain ⟨rfl, _⟩ := hw; rfl
+    · obtain ⟨rfl, _⟩ := hx; rfl
+  simp only [hka, Bool.false_eq_true, if_false]
+  by_cases hoe : (om && isEmpty cfg k v) = true
+  · simp only [hoe, if_true]
+    simp only [Bool.and_eq_true] at hoe
+    obtain ⟨hom, he⟩ := hoe
+    congr 1
+    apply empty_is_zero cfg k v hw he
+    · intro b hv; subst hv; exact hx hom
+    · intro b hv; subst hv; exact hx hom
+    · intro c hv hz hp; subst hv; exact hx.1 hom hz hp
+    · intro valid s hv; subst hv; exact hx
+  · simp only [hoe, Bool.false_eq_true, if_false]
+    cases v with
+    | str valid s =>
+      simp only [ExactValue] at hx; subst hx
+      simp only [WellTyped] at hw; subst hw
+      simp [hStr]
+    | bool b => simp only [WellTyped] at hw; subst hw; simp [hBool]
+    | num n =>
+      obtain ⟨t, hk, hr⟩ := hw
+      simp only [hk, intHops_id cfg k t n (intOK_of_table cfg ht k t hk) hr]
+    | flt b =>
+      rcases hw with ⟨rfl, _⟩ | ⟨rfl, _⟩
+      · simp [hF32]
+      · simp [hF64]
+    | bytes b =>
+      simp only [WellTyped] at hw; subst hw
+      cases b with
+      | none => simp
+      | some bs => simp [hBytes]
+    | cont c =>
+      obtain ⟨_, hx⟩ := hx
+      rcases hx with ⟨rfl, rfl⟩ | hn
+      · simp
+      · rcases hw with rfl | rfl | ⟨rfl, _⟩
+        · simp [hSlice, hn]
+        · simp [hMap, hn]
+        · cases c with
+          | none => simp
+          | some l => simp [hPtr, hn]
+    | time s n =>
+      simp only [ExactValue] at hx
+      rcases hx with he | ⟨hr, hn⟩
+      · simp [he]
+      · by_cases he : isEmpty cfg k (.time s n) = true
+        · simp [he]
+        · simp only [he, Bool.false_eq_true, if_false]
+          cases hts : cfg.timeAsUnixSeconds with
+          | false => simp
+          | true =>
+            have := hn hts; subst this
+            simp only [if_true, intHops_id cfg .time (true, 64) s hTime hr]
+    | stru x =>
+      obtain ⟨hk, hx⟩ := hx
+      subst hk
+      rcases hx with hx | hx
+      · simp [hx]
+      · subst hx; cases cfg.structValueEncoded <;> simp [zero]
+
+/-- Round trip through a MAP-BODY field (msgpack of the value itself is assumed exact). -/
+theorem body_roundtrip (cfg : SdkValues.Cfg) (k : Kind) (om : Bool) (v : Val) (hw : WellTyped k v)
+    (hs : ∀ s, v ≠ .str false s) (hx : ExactBody cfg k om v) : bodyRT cfg k om v = .ok v := by
+  unfold bodyRT
+  by_cases hoe : (om && isEmpty cfg k v) = true
+  · simp only [hoe, if_true]
+    simp only [Bool.and_eq_true] at hoe
+    obtain ⟨hom, he⟩ := hoe
+    congr 1
+    apply empty_is_zero cfg k v hw he
+    · intro b hv; subst hv; exact hx hom
+    · intro b hv; subst hv; exact hx.1 hom
+    · intro c hv hz hp; subst hv; exact hx.1 hom hz hp
+    · intro valid s hv; subst hv
+      cases valid with
+      | true => rfl
+      | false => exact absurd rfl (hs s)
+  · simp only [hoe, Bool.false_eq_true, if_false]
+    cases v with
+    | cont c =>
+      cases c with
+      | none =>
+        rcases hx.2 rfl with h | h
+        · subst h
+          have : isEmpty cfg k (.cont none) = true := by simp [isEmpty]
+          simp [this] at hoe
+        · simp [h]
+      | some l => rfl
+    | bytes b =>
+      cases b with
+      | none =>
+        rcases hx.2 rfl with h | h
+        · subst h
+          have : isEmpty cfg k (.bytes none) = true := by simp [isEmpty]
+          simp [this] at hoe
+        · simp [h]
+      | some l => rfl
+    | _ => rfl
+
+/-! ### the tables of the current tree, and what does not come back -/
+
+def shipped : SdkValues.Cfg :=
+  { enc := [(.str, .stringVal), (.bool, .boolVal), (.u8, .uint8Val), (.u16, .uint16Val), (.u32, .uint32Val), (.u64, .uint64Val),
+            (.uint, .uint64Val), (.i8, .int8Val), (.i16, .int16Val), (.i32, .int32Val), (.i64, .int64Val), (.int, .int64Val),
+            (.f32, .float32Val), (.f64, .float64Val), (.bytes, .bytesVal), (.slice, .bytesVal), (.map, .bytesVal),
+            (.ptr, .bytesVal), (.time, .int64Val)],
+    store := [(.int8Val, .cInt8), (.int16Val, .cInt16), (.int32Val, .cInt32), (.int64Val, .cInt64), (.uint8Val, .cUint8),
+              (.uint16Val, .cUint16), (.uint32Val, .cUint32), (.uint64Val, .cUint64), (.float32Val, .cFloat32),
+              (.float64Val, .cFloat64), (.stringVal, .cString), (.boolVal, .cBool), (.bytesVal, .cBytes)],
+    read := [(.cInt8, .int8Val), (.cInt16, .int16Val), (.cInt32, .int32Val), (.cInt64, .int64Val), (.cUint8, .uint8Val),
+             (.cUint16, .uint16Val), (.cUint32, .uint32Val), (.cUint64, .uint64Val), (.cFloat32, .float32Val),
+             (.cFloat64, .float64Val), (.cString, .stringVal), (.cBool, .boolVal), (.cBytes, .bytesVal)],
+    dec := [(.stringVal, [.str]), (.uint8Val, [.u8]), (.uint16Val, [.u16]), (.uint32Val, [.u32]), (.uint64Val, [.u64, .uint]),
+            (.int8Val, [.i8]), (.int16Val, [.i16]), (.int32Val, [.i32]), (.int64Val, [.i64, .int, .time]),
+            (.float32Val, [.f32]), (.float64Val, [.f64]), (.boolVal, [.bool]), (.bytesVal, [.bytes, .slice, .map, .ptr])],
+    timeAsUnixSeconds := true, structValueEncoded := false, bodySkipsNil := false, emptyLenZero := true, emptyNegZero := true,
+    voidClearsContent := false }
+
+example : tableOK shipped = true := by decide
+
+/-- non-vacuity: boundary values of the narrowest and widest kinds, a time, a pointer, a map -/
+example : valueRT shipped gobLib .i8 false (.num (-128)) = .ok (.num (-128)) ∧
+          valueRT shipped gobLib .u64 true (.num 18446744073709551615) = .ok (.num 18446744073709551615) ∧
+          valueRT shipped gobLib .time false (.time 1928117106 0) = .ok (.time 1928117106 0) ∧
+          valueRT shipped gobLib .time false (.time (-315619200) 0) = .ok (.time (-315619200) 0) ∧
+          valueRT shipped gobLib .ptr false (.cont (some [7])) = .ok (.cont (some [7])) ∧
+          bodyRT shipped .map false (.cont (some [])) = .ok (.cont (some [])) ∧
+          bodyRT shipped .time false (.time 1928117106 789000000) = .ok (.time 1928117106 789000000) := by decide
+
+/-- a narrowing hop IS visible in the model: store uint16 values as a uint8 content and 300 comes back as 44 -/
+example : valueRT { shipped with store := (.uint16Val, .cUint8) :: shipped.store, read := (.cUint8, .uint16Val) :: shipped.read }
+            gobLib .u16 false (.num 300) = .ok (.num 44) := by decide
+
+/-- a time VALUE is sent as Unix seconds: the sub-second part is lost -/
+theorem time_value_truncated :
+    valueRT shipped gobLib .time false (.time 1928117106 789000000) = .ok (.time 1928117106 0) := by decide
+
+/-- a struct VALUE (other than time.Time) is silently not sent at all -/
+theorem struct_value_dropped : valueRT shipped gobLib .struct false (.stru 5) = .ok (.stru 0) := by decide
+
+/-- a nil slice / map / pointer in a map-body field is saved as msgpack nil and cannot be read back -/
+theorem nil_body_field_unreadable :
+    bodyRT shipped .slice false (.cont none) = .err ∧ bodyRT shipped .ptr false (.cont none) = .err := by decide
+
+/-- `omitempty` turns an empty non-nil []byte into nil and -0.0 into +0.0 -/
+theorem omitempty_normalises :
+    valueRT shipped gobLib .bytes true (.bytes (some [])) = .ok (.bytes none) ∧
+    valueRT shipped gobLib .f64 true (.flt (2 ^ 63)) = .ok (.flt 0) ∧
+    bodyRT shipped .slice true (.cont (some [])) = .ok (.cont none) := by decide
+
+/-- gob itself (a parameter): an empty slice comes back nil, a nil map comes back empty -/
+theorem gob_nil_empty_witness :
+    valueRT shipped gobLib .slice false (.cont (some [])) = .ok (.cont none) ∧
+    valueRT shipped gobLib .map false (.cont none) = .ok (.cont (some [])) := by decide
+
+/-- arrays and non-UTF-8 strings are refused with an error -/
+example : valueRT shipped gobLib .array false (.stru 1) = .err ∧ valueRT shipped gobLib .str false (.str false [255]) = .err := by decide
+
+/-! ### the full statement for repaired flags, its negation for each flag -/
+
+def flagsGood (cfg : SdkValues.Cfg) : Bool :=
+  !cfg.timeAsUnixSeconds && cfg.structValueEncoded && cfg.bodySkipsNil && !cfg.emptyLenZero && !cfg.emptyNegZero &&
+  cfg.voidClearsContent
+
+theorem holds_of_good (cfg : SdkValues.Cfg) (ht : tableOK cfg = true) (hf : flagsGood cfg = true) : Holds cfg := by
+  simp only [flagsGood, Bool.and_eq_true, Bool.not_eq_true'] at hf
+  obtain ⟨⟨⟨⟨⟨h1, h2⟩, h3⟩, h4⟩, h5⟩, h6⟩ := hf
+  intro k om v hw hka hs ht64
+  refine ⟨convert_roundtrip cfg idLib ht k om v hw ?_, body_roundtrip cfg k om v hw hs ?_,
+    fun v1 _ => by simp [valueUpdRT, h6]⟩
+  · cases v with
+    | str valid s => cases valid with
+      | true => rfl
+      | false => exact absurd rfl (hs s)
+    | bool b => trivial
+    | num n => trivial
+    | flt b => intro _ h; simp [h5] at h
+    | bytes b => intro _ h; simp [h4] at h
+    | cont c => exact ⟨fun _ h => by simp [h4] at h, Or.inr rfl⟩
+    | time s n => exact Or.inr ⟨ht64 s n rfl, fun h => by simp [h1] at h⟩
+    | stru x =>
+      rcases hw with rfl | rfl
+      · exact ⟨rfl, Or.inl h2⟩
+      · exact absurd rfl hka
+  · cases v with
+    | flt b => intro _ h; simp [h5] at h
+    | bytes b => exact ⟨fun _ h => by simp [h4] at h, fun _ => Or.inr h3⟩
+    | cont c => exact ⟨fun _ h => by simp [h4] at h, fun _ => Or.inr h3⟩
+    | _ => trivial
+
+theorem refutes_time_seconds (cfg : SdkValues.Cfg) (h : cfg.timeAsUnixSeconds = true) : ¬ Holds cfg := by
+  intro hh
+  have := (hh .time false (.time 0 5) ⟨rfl, by decide⟩ (by decide) (by intro s; simp) (by
+    intro s n e; injection e with e1 _; subst e1; decide)).1
+  simp only [valueRT, isEmpty, h] at this
+  revert this
+  cases intHops cfg .time (true, 64) 0 <;> simp [zero]
+
+theorem refutes_struct_dropped (cfg : SdkValues.Cfg) (h : cfg.structValueEncoded = false) : ¬ Holds cfg := by
+  intro hh
+  have := (hh .struct false (.stru 5) (Or.inl rfl) (by decide) (by intro s; simp) (by intro s n e; simp at e)).1
+  simp [valueRT, isEmpty, h, zero] at this
+
+theorem refutes_body_nil (cfg : SdkValues.Cfg) (h : cfg.bodySkipsNil = false) : ¬ Holds cfg := by
+  intro hh
+  have := (hh .slice false (.cont none) (Or.inl rfl) (by decide) (by intro s; simp) (by intro s n e; simp at e)).2.1
+  simp [bodyRT, h] at this
+
+theorem refutes_empty_len_zero (cfg : SdkValues.Cfg) (h : cfg.emptyLenZero = true) : ¬ Holds cfg := by
+  intro hh
+  have := (hh .slice true (.cont (some [])) (Or.inl rfl) (by decide) (by intro s; simp) (by intro s n e; simp at e)).2.1
+  simp [bodyRT, isEmpty, h, zero] at this
+
+theorem refutes_empty_neg_zero (cfg : SdkValues.Cfg) (h : cfg.emptyNegZero = true) : ¬ Holds cfg := by
+  intro hh
+  have := (hh .f64 true (.flt (2 ^ 63)) (Or.inr ⟨rfl, by decide⟩) (by decide) (by intro s; simp) (by intro s n e; simp at e)).2.1
+  simp [bodyRT, isEmpty, h, zero, signBit] at this
+
+/-- Overwriting a stored value with nothing (nil pointer here; also nil []byte, zero time, or a zero value
+    under omitempty) leaves the OLD value in the treasure: the server's SetContentVoid does not clear a
+    typed content. -/
+theorem void_overwrite_keeps_old_value :
+    valueUpdRT shipped gobLib .ptr false (.cont (some [2])) (.cont none) = .ok (.cont (some [2])) ∧
+    valueUpdRT shipped gobLib .u8 true (.num 255) (.num 0) = .ok (.num 255) := by decide
+
+theorem refutes_void_keeps (cfg : SdkValues.Cfg) (ht : tableOK cfg = true) (h : cfg.voidClearsContent = false) : ¬ Holds cfg := by
+  intro hh
+  have hv := hh .ptr false (.cont none) (Or.inr (Or.inr ⟨rfl, by simp⟩)) (by decide) (by intro s; simp)
+    (by intro s n e; simp at e)
+  have h3 := hv.2.2 (.cont (some [2])) (Or.inr (Or.inr ⟨rfl, by simp⟩))
+  simp only [tableOK, Bool.and_eq_true] at ht
+  have hPtr := ht.2
+  simp [valueUpdRT, sendsVoid, isEmpty, h, valueRT, hPtr, idLib] at h3
+
+end Values
 /-! ### Decision over the extracted facts -/
 
 structure Facts where
@@ -281,35 +638,99 @@ structure Facts where
   decUpdatedAt : Pred
   loopOrder : Tri          -- both loops test the slots in the modelled order, value falls through only in the encoder
   shapeUsesHead : Tri      -- inspectCatalogModel compares `strings.Split(raw, ",")[0]` with the reserved names
+  -- value conversions
+  valEnc : List (SdkValues.Kind × SdkValues.Field)
+  valStore : List (SdkValues.Field × SdkValues.Content)
+  valRead : List (SdkValues.Content × SdkValues.Field)
+  valDec : List (SdkValues.Field × List SdkValues.Kind)
+  valTablesRecognised : Tri   -- the four switch tables were read completely
+  timeAsUnixSeconds : Tri
+  structValueEncoded : Tri
+  bodySkipsNil : Tri
+  emptyLenZero : Tri
+  emptyNegZero : Tri
+  voidClearsContent : Tri
   deriving Repr
 
 def cfgOf (f : Facts) : Cfg :=
   ⟨⟨f.encKey, f.encValue, f.encExpireAt, f.encCreatedBy, f.encCreatedAt, f.encUpdatedBy, f.encUpdatedAt⟩,
    ⟨f.decKey, f.decValue, f.decExpireAt, f.decCreatedBy, f.decCreatedAt, f.decUpdatedBy, f.decUpdatedAt⟩⟩
 
+def valCfgOf (f : Facts) : SdkValues.Cfg :=
+  ⟨f.valEnc, f.valStore, f.valRead, f.valDec, f.timeAsUnixSeconds.isYes, f.structValueEncoded.isYes,
+   f.bodySkipsNil.isYes, f.emptyLenZero.isYes, f.emptyNegZero.isYes, f.voidClearsContent.isYes⟩
+
+/-- The full-strength statement: tags AND values. -/
+def Holds (f : Facts) : Prop := TagHolds (cfgOf f) ∧ Values.Holds (valCfgOf f)
+
 def hasUnknownPred (c : Cfg) : Bool :=
   allSlots.any (fun s => c.enc.get s == .unknown || c.dec.get s == .unknown)
 
-def findings (c : Cfg) : List String :=
+def valFlagsKnown (f : Facts) : Bool :=
+  f.valTablesRecognised == .yes && f.timeAsUnixSeconds != .unknown && f.structValueEncoded != .unknown &&
+  f.bodySkipsNil != .unknown && f.emptyLenZero != .unknown && f.emptyNegZero != .unknown && f.voidClearsContent != .unknown
+
+def tagFindings (c : Cfg) : List String :=
   (if c.enc.noContains && c.dec.noContains then [] else ["C22-substring-tag-match"]) ++
   (if allSlots.any (fun s => c.enc.get s == .eq || c.dec.get s == .eq) then ["C22-whole-tag-equality"] else [])
+
+def valFindings (v : SdkValues.Cfg) : List String :=
+  (if v.bodySkipsNil then [] else ["C22-nil-body-field-unreadable"]) ++
+  (if v.timeAsUnixSeconds then ["C22-value-time-truncated"] else []) ++
+  (if v.structValueEncoded then [] else ["C22-struct-value-dropped"]) ++
+  (if v.emptyLenZero || v.emptyNegZero then ["C22-omitempty-normalises"] else []) ++
+  (if v.voidClearsContent then [] else ["C22-void-overwrite-keeps-old-value"])
 
 def classify (f : Facts) : Verdict :=
   if f.loopOrder != .yes || f.shapeUsesHead != .yes then .undetermined "loop structure of the SDK conversions not recognised"
   else if hasUnknownPred (cfgOf f) then .undetermined "a tag predicate of the SDK conversions was not recognised"
-  else if (cfgOf f).allHeadEq then .holds
-  else .violated (findings (cfgOf f))
+  else if !valFlagsKnown f then .undetermined "a value conversion of the SDK / gateway was not recognised"
+  else if !SdkValues.tableOK (valCfgOf f) then .undetermined "the value tables do not connect every kind to itself without narrowing"
+  else if (cfgOf f).allHeadEq && Values.flagsGood (valCfgOf f) then .holds
+  else .violated (tagFindings (cfgOf f) ++ valFindings (valCfgOf f))
 
-theorem classify_sound (f : Facts) :
-    (classify f).Sound (Holds (cfgOf f)) (cfgOf f = legacy → ∀ t, Plain t → Agree (cfgOf f) t) := by
+/-- What the code as it is guarantees: plain tags are classified consistently, and every value of
+    the exact domains round-trips through both slots (for any lawful container codec). -/
+def HoldsPartial (f : Facts) : Prop :=
+  (cfgOf f = legacy → ∀ t, Plain t → Agree (cfgOf f) t) ∧
+  (∀ lib k om v, SdkValues.WellTyped k v → Values.ExactValue (valCfgOf f) lib k om v →
+      SdkValues.valueRT (valCfgOf f) lib k om v = .ok v) ∧
+  (∀ k om v, SdkValues.WellTyped k v → (∀ s, v ≠ .str false s) → Values.ExactBody (valCfgOf f) k om v →
+      SdkValues.bodyRT (valCfgOf f) k om v = .ok v)
+
+theorem classify_sound (f : Facts) : (classify f).Sound (Holds f) (HoldsPartial f) := by
   unfold classify
   split
   · trivial
   · split
     · trivial
     · split
-      · rename_i h; exact (slots_agree _).mpr h
-      · rename_i h
-        exact ⟨not_holds_of_not_allHeadEq _ (by simpa using h), fun e t ht => e ▸ agree_plain_partial t ht⟩
+      · trivial
+      · split
+        · trivial
+        · rename_i _ _ _ htab
+          have htab' : SdkValues.tableOK (valCfgOf f) = true := by simpa using htab
+          split
+          · rename_i h
+            simp only [Bool.and_eq_true] at h
+            exact ⟨(slots_agree _).mpr h.1, Values.holds_of_good _ htab' h.2⟩
+          · rename_i h
+            refine ⟨?_, fun e t ht => e ▸ agree_plain_partial t ht,
+              fun lib k om v hw hx => Values.convert_roundtrip _ lib htab' k om v hw hx,
+              fun k om v hw hs hx => Values.body_roundtrip _ k om v hw hs hx⟩
+            intro hh
+            simp only [Bool.and_eq_true, not_and, Bool.not_eq_true] at h
+            cases ha : (cfgOf f).allHeadEq with
+            | false => exact not_holds_of_not_allHeadEq _ ha hh.1
+            | true =>
+              have hg := h ha
+              simp only [Values.flagsGood, Bool.and_eq_false_iff, Bool.not_eq_false', Bool.not_eq_false] at hg
+              rcases hg with ((((hg | hg) | hg) | hg) | hg) | hg
+              · exact Values.refutes_time_seconds _ hg hh.2
+              · exact Values.refutes_struct_dropped _ hg hh.2
+              · exact Values.refutes_body_nil _ hg hh.2
+              · exact Values.refutes_empty_len_zero _ hg hh.2
+              · exact Values.refutes_empty_neg_zero _ hg hh.2
+              · exact Values.refutes_void_keeps _ htab' hg hh.2
 
 end Hv.C22
